@@ -35,7 +35,7 @@ RULE = ("tensors: generic SPD 6x6 (Q diag(lam) Q^T, lam in [1,500], Q from 15 pl
         "integer seed, SI - with an earlier stage in the same process and models read under a third configuration; (near "
         "thresholds) coupling constants of 1e-12 ... 1e-3 C11 (almost a higher symmetry), almost-tetragonal orthorhombic, cubic / "
         "hexagonal within 1e-12 ... 1e-3 of isotropy, rotations that miss a symmetry operation by 1e-10 ... 1e-2 degrees, axes that "
-        "miss orthogonality by 1e-13 ... 1e-10; (exact structure) the 24 proper signed permutations of the axes as exact integer "
+        "miss orthogonality by 1e-13 ... 1e-10; (decades) axes rows of lengths 1e-8 ... 1e8 in one call; (exact structure) the 24 proper signed permutations of the axes as exact integer "
         "matrices and crystal-system tensors with exactly relabelled axes; (combos) enumerated option combinations, see the clause. "
         "Non-trivial: reps - all 36 Voigt entries non-zero (generic SPD / rotated / triclinic); named - the tensor is "
         "anisotropic (changes by > 1e-3 max|C| under a fixed generic rotation); isotropic - nu > 0; rotate - first "
@@ -1735,7 +1735,7 @@ CLAUSES = [
            min_share={'nt': 0.4, 'how_method': 0.15, 'nonunit_axes': 0.15, 'how_reuse': 0.15, 'pre_looked': 0.03, 'near_iso': 0.1,
                       'scale_small': 0.08, 'num_int': 0.02, 'num_npint': 0.02, 'axes_readonly': 0.04, 'whole': 0.08,
                       'ledger': 0.4, 'caller_redefined_out': 0.2, 'caller_overwrote': 0.17, 'axes_dt_int': 0.025, 'axes_dt_float': 0.03,
-                      'almost': 0.03, 'num_narrow': 0.1, 'axes_almost_orth': 0.045, 'exact_relabelling': 0.065},
+                      'almost': 0.03, 'num_narrow': 0.1, 'axes_almost_orth': 0.045, 'exact_relabelling': 0.065, 'axes_decades': 0.02},
            desc='crystal-system constructors in every documented keyword form against my placement table; invariance '
                 'under the system\'s symmetry generators by my rotation and by transform()'),
     Clause('isotropic', _ledgered(oracle_isotropic), isotropic_cases, quick=2400, thorough=70000,
@@ -1748,7 +1748,7 @@ CLAUSES = [
                       'scale_small': 0.1,
                       'ledger': 0.5, 'caller_overwrote': 0.22, 'caller_reused': 0.12, 'in_dt_float': 0.05, 'in_dt_int': 0.03, 'axes_dt_int': 0.04,
                       'axes_dt_float': 0.04, 'almost': 0.05, 'kind_perm': 0.04, 'rot_exact_perm': 0.09, 'rot_near_symmetry': 0.15,
-                      'axes_almost_orth': 0.11},
+                      'axes_almost_orth': 0.11, 'axes_decades': 0.04},
            desc='transform against my own tensor rotation; identity, composition, inverse; strain energy of co-rotated '
                 'strain; Voigt/Reuss/Hill bulk and shear against invariants and unchanged by rotation'),
     Clause('history', _ledgered(oracle_history), history_cases, quick=1600, thorough=40000,
@@ -1774,7 +1774,7 @@ CLAUSES = [
                 'in the same process under another; models written under one configuration read under a third; objects, arrays '
                 'and models of the earlier stages must not move'),
     Clause('combos', _ledgered(oracle_combos), enumerate=combo_list, quick=1, thorough=1,
-           min_share={'nt': 0.25, 'combo_redefine': 0.4, 'combo_model': 0.03, 'combo_isotropic': 0.03, 'combo_normalize': 0.015},
+           min_share={'nt': 0.25, 'combo_redefine': 0.4, 'combo_model': 0.014, 'combo_isotropic': 0.011, 'combo_normalize': 0.005},
            desc='enumerated: every ordered pair of definition routes of one object x every read in between x every '
                 'representation read first; the 15 isotropic pairs x alias spellings x keyword order x number type x fresh / '
                 're-used object; model(unit, crystal_system) option pairs per crystal system followed by a full look and both '
